@@ -24,7 +24,7 @@ import (
 // changes the admitted set equals the file's set within a few seconds.
 
 type c18Edit struct {
-	Kind   string `json:"kind"` // add | remove | enable | disable | rewrite
+	Kind   string `json:"kind"` // add | remove | enable | disable | rewrite | dup (list an address once more) | shuffle
 	IP     int    `json:"ip"`   // 1..8 -> 127.0.0.<ip>
 	Rename bool   `json:"rename"`
 }
@@ -32,16 +32,22 @@ type c18Edit struct {
 type c18Case struct {
 	Enable bool      `json:"enable"`
 	IPs    []int     `json:"ips"`
+	Dups   []int     `json:"dups,omitempty"` // addresses listed twice in the initial file
 	Edits  []c18Edit `json:"edits"`
 }
 
 func c18Gen(t *rapid.T) c18Case {
 	c := c18Case{Enable: rapid.IntRange(0, 3).Draw(t, "enable") > 0}
 	c.IPs = rapid.SliceOfNDistinct(rapid.IntRange(1, 8), 0, 5, rapid.ID[int]).Draw(t, "ips")
+	for _, ip := range c.IPs {
+		if rapid.IntRange(0, 4).Draw(t, "initdup") == 0 {
+			c.Dups = append(c.Dups, ip)
+		}
+	}
 	n := rapid.IntRange(1, 6).Draw(t, "nedits")
 	for i := 0; i < n; i++ {
 		c.Edits = append(c.Edits, c18Edit{
-			Kind:   rapid.SampledFrom([]string{"add", "add", "remove", "remove", "remove", "enable", "disable", "rewrite"}).Draw(t, "kind"),
+			Kind:   rapid.SampledFrom([]string{"add", "add", "remove", "remove", "remove", "enable", "disable", "rewrite", "dup", "dup", "shuffle"}).Draw(t, "kind"),
 			IP:     rapid.IntRange(1, 8).Draw(t, "ip"),
 			Rename: rapid.IntRange(0, 2).Draw(t, "rename") == 0,
 		})
@@ -49,12 +55,24 @@ func c18Gen(t *rapid.T) c18Case {
 	return c
 }
 
-func c18IPs(set map[int]bool) []string {
+func c18IPs(set map[int]bool) []string { return c18List(set, nil, false) }
+
+// c18List renders the address list of the file: every admitted address, extra copies of those in dups,
+// in ascending or descending order.
+func c18List(set map[int]bool, dups map[int]int, reverse bool) []string {
 	var ks []int
 	for k := range set {
 		ks = append(ks, k)
+		for i := 0; i < dups[k]; i++ {
+			ks = append(ks, k)
+		}
 	}
 	sort.Ints(ks)
+	if reverse {
+		for i, j := 0, len(ks)-1; i < j; i, j = i+1, j-1 {
+			ks[i], ks[j] = ks[j], ks[i]
+		}
+	}
 	var out []string
 	for _, k := range ks {
 		out = append(out, fmt.Sprintf("127.0.0.%d", k))
@@ -144,8 +162,15 @@ func c18Exec(c *c18Case) ([]Discrepancy, []string) {
 	for _, ip := range c.IPs {
 		set[ip] = true
 	}
+	dups := map[int]int{}
+	for _, ip := range c.Dups {
+		if set[ip] {
+			dups[ip]++
+		}
+	}
+	reverse := false
 	enable := c.Enable
-	cfg := sut.Config{WhitelistEnable: enable, WhitelistIPs: c18IPs(set)}
+	cfg := sut.Config{WhitelistEnable: enable, WhitelistIPs: c18List(set, dups, reverse)}
 	// the harness' own readiness probes come from 127.0.0.1: start with the whitelist as generated but wait for
 	// routing through an address that is admitted; if none is, start disabled and make "enable" the first edit
 	startEnable := enable
@@ -167,7 +192,7 @@ func c18Exec(c *c18Case) ([]Discrepancy, []string) {
 	evidence.For("C18").Add("proxy_starts", 1)
 	file := filepath.Join(f.Proxy.ConfDir(), "authip.yaml")
 	write := func(rename bool) error {
-		content := []byte(sut.AuthipYAML(enable, c18IPs(set)))
+		content := []byte(sut.AuthipYAML(enable, c18List(set, dups, reverse)))
 		if rename {
 			tmp := file + ".tmp"
 			if err := os.WriteFile(tmp, content, 0o644); err != nil {
@@ -240,6 +265,12 @@ func c18Exec(c *c18Case) ([]Discrepancy, []string) {
 			set[e.IP] = true
 		case "remove":
 			delete(set, e.IP)
+			delete(dups, e.IP)
+		case "dup":
+			set[e.IP] = true
+			dups[e.IP]++
+		case "shuffle":
+			reverse = !reverse
 		case "enable":
 			enable = true
 		case "disable":
